@@ -103,6 +103,29 @@ def ctype_byte(v):
     return None
 
 
+_helper_zero = {}
+
+
+def helper_of_byte(v, m):
+    """v == helper(ext(byte load)) for a defined single-argument function of the module: (the byte load, helper(0)) -
+    helper(0) evaluated by finite-set evaluation of the helper on the argument 0 - else (None, None)."""
+    i = v.inst
+    while i is not None and i.op in ("sext", "zext", "trunc"):
+        i = i.ops[0].inst
+    if i is None or i.op != "call" or not isinstance(i.callee, str) or not m.has_fn(i.callee) or len(i.args) != 1:
+        return None, None
+    ld = byte_of(i.args[0])
+    if ld is None:
+        return None, None
+    key = (id(m), i.callee)
+    if key not in _helper_zero:
+        try:
+            _helper_zero[key] = eval_fn(m.fn(i.callee), m, 0)
+        except (AnalysisError, NoValue, KeyError, IndexError):
+            _helper_zero[key] = None
+    return ld, _helper_zero[key]
+
+
 def cond_facts(c, m):
     """(facts on the true edge, facts on the false edge) of branch condition value c."""
     i = c.inst
@@ -123,13 +146,18 @@ def cond_facts(c, m):
         if a.is_const_int():
             a, b, pred = b, a, swap[pred]
         ld = byte_of(a)
-        if ld is None or not b.is_const_int():
+        zero_val = 0
+        if ld is None and b.is_const_int():
+            # classifier(byte) compared with a constant, classifier being a pure helper of this unit (a digit table, a
+            # switch): what it yields for the NUL byte decides which edge a NUL could take
+            ld, zero_val = helper_of_byte(a, m)
+        if ld is None or not b.is_const_int() or zero_val is None:
             return [], []
         k = pkey(ld.ops[0], m)
         if not k:
             return [], []
         bits = int(b.ty[1:])
-        zero_holds = paths.fold_icmp(pred, ("c", bits, 0), ("c", bits, b.uval & ((1 << bits) - 1)))[2]
+        zero_holds = paths.fold_icmp(pred, ("c", bits, zero_val & ((1 << bits) - 1)), ("c", bits, b.uval & ((1 << bits) - 1)))[2]
         fact = ("nonnul", k[0], k[1])
         return ([], [fact]) if zero_holds else ([fact], [])
     if i.op != "icmp":
